@@ -128,7 +128,7 @@ func checkWasmState(r *evid.Run, pool *wproto.Pool, d *DocState, concs []*tok.Co
 			}
 			// (a dry run also validates the names: a well-formed document with a name that is no path element is rejected
 			// by design, by both builds alike - checked above - so the specification's verdict says nothing there)
-			dryHostile := strings.Contains(m.name, "dry-run") && docHasPathSpecialName(d)
+			dryHostile := strings.Contains(m.name, "dry-run") && (docHasPathSpecialName(d) || strings.HasPrefix(c.Name, "invalid-utf8"))
 			if hasRootLine(d.Doc) && !dryHostile {
 				if d.Verdict == "accept" && w.Class != "ok" {
 					r.Mismatch("wasm-"+m.name+":wellformed-rejected", fmt.Sprintf("doc=%q err=%s", doc, w.Err), rp)
@@ -205,6 +205,7 @@ func checkC17(r *evid.Run) {
 	concs = append(concs, tok.MakeConc(int(r.Seed)%5, 4, true, allChunkIDs, nil))
 	// one concretisation per branch-string set (empty connectors, empty everything, unequal lengths, ...): every state
 	// is also run under one of them, in turn
+	invalid := tok.InvalidUTF8Conc(int(r.Seed), allChunkIDs)
 	var perSet []*tok.Conc
 	for b := 0; b < tok.NumBranchSets(); b++ {
 		perSet = append(perSet, tok.MakeConc(int(r.Seed+int64(b))%5, b, b%2 == 0, allChunkIDs, nil))
@@ -222,7 +223,11 @@ func checkC17(r *evid.Run) {
 			if d.N%1999 == 0 {
 				r.Sample(map[string]any{"doc": docString(d.Doc), "verdict": d.Verdict})
 			}
-			checkWasmState(r, pool, d, append(append([]*tok.Conc{}, concs...), perSet[d.N%len(perSet)]))
+			cs := append(append([]*tok.Conc{}, concs...), perSet[d.N%len(perSet)])
+			if d.N%3 == 0 {
+				cs = append(cs, invalid) // names that are not valid UTF-8: no path element either (a dry run rejects them)
+			}
+			checkWasmState(r, pool, d, cs)
 		})
 	}
 	c17Random(r, pool)
